@@ -200,7 +200,7 @@ def sim_part(tier, rng, drv, res, monitors_on=("ticker", "device_order"), corr=(
         if i % 4 == 1 and "start_delays" not in scn:
             # the same scenario from a configuration FILE through read_configs / build_simulation / TickitSimulation.run(),
             # as one simulation or divided over several that share the bus
-            fs = SC.as_config_file(scn, rng)
+            fs = SC.as_config_file(scn, rng, split=(i % 8 < 4))
             b = rng.choice(("sync", "held", "internal"))
             sd = rng.randrange(1 << 30)
             run = run_scenario(fs, bus=b, seed=sd)
